@@ -224,6 +224,12 @@ def run_bootstrap_like(ctx, routine, tap):
     method = gen.pick(rng, ['cosine', 'corr', 'spearman', 'rho-a', 'tau-a', 'cosine_cov'])
     # correlation of a constant (tied, tiny) resample is undefined: tied data only for the other measures
     w = make_world(rng, ties_ok=not method.startswith('corr'))
+    # one subject's RDM is flat (all dissimilarities equal, e.g. nothing was discriminable): tau-b of a constant is
+    # undefined, every resample holding that subject evaluates to NaN and is left out of the variances
+    flat = routine == 'eval_bootstrap_rdm' and rng.integers(4) == 0
+    if flat:
+        method = 'tau-b'
+        w['data'][int(rng.integers(w['n_rdm']))] = 0.0
     specs = make_models(rng, w, False)
     models = [s[0] for s in specs]
     thetas = [s[1] for s in specs]
@@ -236,7 +242,7 @@ def run_bootstrap_like(ctx, routine, tap):
         # a data set that is itself a bootstrap sample has such a non-unique index): groups are groups, whatever the name
         w['rd']['index'] = list(w['rd']['grp'])
         rdesc, own_index = 'index', True
-    bnc = bool(rng.integers(2))
+    bnc = bool(rng.integers(2)) or flat
     seed = int(rng.integers(2 ** 31))
     sig = dict(routine=routine, method=method, grouped=grouped, rdm_grouping=w['rgk'], pattern_grouping=w['pgk'], own_index=own_index,
                boot_noise_ceil=bnc, models='+'.join(sorted(set(type(m).__name__[5:] for m in models))))
@@ -308,6 +314,9 @@ def run_bootstrap_like(ctx, routine, tap):
                 ctx.fail(routine, dict(sig, what='small_sample_not_nan'), f'resample {i} has fewer than 3 distinct '
                          f'condition groups but its evaluations are {ev[i].tolist()}', wit(i=i))
                 return
+            continue
+        if flat and not np.all(np.isfinite(ev[i])):
+            ctx.count('nan_samples_seen')
             continue
         ok_rows.append(i)
         if not sample_ok(ctx, routine, sig, w, sample, lambda **k: wit(i=i, **k)):
@@ -648,11 +657,16 @@ def run_boot_cv(ctx, routine, tap):
     wit = lambda **k: dict(routine=routine, data=w['data'], rd=w['rd'], pd=w['pd'], seed=seed,  # noqa: E731
                            kwargs={a: b for a, b in kw.items() if a != 'fitter'}, **k)
 
+    # the leading arguments by position in their documented order, or everything by keyword
+    posnames = ['method', 'fitter', 'k_pattern', 'k_rdm'] if routine == 'bootstrap_crossval' and (N + n_cv) % 2 else []
+    posargs = [kw[a] for a in posnames]
+    kwrest = {a: b for a, b in kw.items() if a not in posnames}
+
     def go():
         np.random.seed(seed)
         tap.take()
         with Traced() as tr:
-            res = fn(models, data_obj(w), **kw)
+            res = fn(models, data_obj(w), *posargs, **kwrest)
         return res, tr, tap.take()
     try:
         res, tr, draws = go()
@@ -732,6 +746,21 @@ def run_boot_cv(ctx, routine, tap):
                 ctx.fail(routine, dict(sig, what='stored_block'), f'evaluations of resample {i}, run {c} differ from '
                          f'the result of that cross-validation run', wit(i=i, run=c))
                 return
+            # the folds split the dimension(s) the caller asked to split: k_pattern folds over conditions, k_rdm over RDMs
+            if k_p is not None and routine == 'bootstrap_crossval':
+                samp = ch['boot']['out'][0]
+                n_pg_s = len(set(ref._key(v) for v in samp.pattern_descriptors[pdesc]))
+                for f in range(len(te_set)):
+                    split_p = len(set(ref._key(v) for v in te_set[f][1])) < n_pg_s
+                    split_r = len(set(ref._key(v) for v in te_set[f][0].rdm_descriptors[rdesc])) < \
+                        len(set(ref._key(v) for v in samp.rdm_descriptors[rdesc]))
+                    ctx.count('fold_dimensions_checked')
+                    if (split_p, split_r) != (k_p > 1, k_r > 1) and te_set[f][0].n_rdm > 0:
+                        ctx.fail(routine, dict(sig, what='fold_numbers'), f'k_pattern={k_p}, k_rdm={k_r} were requested, but '
+                                 f'test fold {f} of resample {i} holds {len(set(ref._key(v) for v in te_set[f][1]))} of '
+                                 f'{n_pg_s} condition groups and {te_set[f][0].n_rdm} of {samp.n_rdm} RDMs',
+                                 wit(i=i, run=c, fold=f))
+                        return
             # ... and that run is the direct comparison at parameters fitted on each fold's training set
             for f in range(len(te_set)):
                 try:
